@@ -1,10 +1,155 @@
-(* C06 -- Remote peers can reach only objects they were given or can name. *)
+(* C06 -- Remote peers can reach only objects they were given or can name.
+   Property theorems only; model in lib/Reach.v (on the translated gen/ReachGen.v), proofs in lib/ReachProofs.v. *)
 From Coq Require Import ZArith List String Bool.
 Import ListNotations.
 Require Import Verif.lib.PyLite Verif.gen.ReachGen Verif.lib.Reach Verif.lib.ReachProofs.
 Local Open Scope Z_scope.
 
-(* "unguessable registered name": names the Tub invents carry at least 128 bits from os.urandom *)
+(* "a peer can cause code to run only on (a) [the broker's name lookup / release entry points: id 0] ... (b) objects that
+   were explicitly sent to it over that same connection and not yet released, and only through methods exposed for
+   remote use": whatever an inbound call enters is either one of the RIBroker methods of this connection's broker, or the
+   object / callable this connection's export table holds under that very id -- and then only the attribute
+   "remote_" ++ <method name>, which must exist and, if the object declares a RemoteInterface, be part of it *)
+Theorem C06_calls : forall w st c req clid m args st' r e,
+  step w st (Msg c req clid m args) = (st', r) -> r_out r = Enter e ->
+  c_alive (get_conn st c) = true /\
+  ((clid = 0 /\ exists s, m = MStr s /\ In s broker_methods /\ e = EBroker (remote_prefix ++ s)) \/
+   (clid < 0 /\ exists o, exported st c clid o /\ e = ECallable o) \/
+   (0 < clid /\ exists o s, exported st c clid o /\ m = MStr s /\ e = EObj o (remote_prefix ++ s) /\
+        In (remote_prefix ++ s)%string (o_attrs (w_obj w o)) /\
+        (forall l, o_iface (w_obj w o) = Some l -> In s l))).
+Proof. exact calls_sound. Qed.
+Print Assumptions C06_calls.
+
+(* "only through methods exposed for remote use": the prefix is the one read from Referenceable.doRemoteCall, and the
+   broker exposes exactly the three RIBroker methods *)
+Theorem C06_remote_prefix : forall w st c req clid m args st' r,
+  step w st (Msg c req clid m args) = (st', r) ->
+  (forall o a, r_out r = Enter (EObj o a) -> String.prefix "remote_" a = true) /\
+  (forall a, r_out r = Enter (EBroker a) -> String.prefix "remote_" a = true).
+Proof. exact entered_attr_prefixed. Qed.
+Print Assumptions C06_remote_prefix.
+
+Theorem C06_broker_surface :
+  broker_methods = ["getReferenceByName"; "decref"; "decgift"]%string /\
+  broker_remote_attrs = map (fun m => remote_prefix ++ m)%string ["decref"; "decgift"; "getReferenceByName"]%string.
+Proof. exact broker_methods_pinned. Qed.
+Print Assumptions C06_broker_surface.
+
+(* "explicitly sent to it over that same connection and not yet released", over all histories: every entry of a
+   connection's export table in a reachable state has a positive reference count, an id that is not 0 and that the
+   connection's counter has already passed (ids are never guessed ahead or reused), and was emitted as a my-reference on
+   that same connection *)
+Theorem C06_exports_were_granted : forall w h st rs c clid o rc,
+  run w init h = (st, rs) -> zget clid (c_exports (get_conn st c)) = Some (o, rc) ->
+  0 < rc /\ clid <> 0 /\ Z.abs clid < c_next (get_conn st c) /\ In (c, clid, o) (sent_of rs).
+Proof. exact exports_were_granted. Qed.
+Print Assumptions C06_exports_were_granted.
+
+(* ... and a my-reference is emitted only when the application sends that object on that connection, or when that
+   connection's peer named it ("(a) objects it names by their unguessable registered name") *)
+Theorem C06_sent_justified : forall w st e st' r c clid o,
+  step w st e = (st', r) -> In (c, clid, o) (r_sent r) ->
+  (exists sw, e = Grant c o sw) \/
+  (exists req n, e = Msg c req broker_clid (MStr "getReferenceByName") [ABytes (MStr n)] /\ req <> 0 /\
+                 lookup_name w st n = Some o).
+Proof. exact sent_justified. Qed.
+Print Assumptions C06_sent_justified.
+
+(* name lookup yields only registered objects (or what a registered lookup handler provides) *)
+Theorem C06_names : forall w st n o,
+  lookup_name w st n = Some o ->
+  In (n, o) (s_n2r st) \/ (sget n (s_n2r st) = None /\ w_handler w n = Some o).
+Proof. exact names_sound. Qed.
+Print Assumptions C06_names.
+
+(* "unguessable": names the Tub invents carry NAMEBITS (translated: 160) >= 128 bits *)
 Theorem C06_swissnum_bits : 128 <= NAMEBITS.
 Proof. exact swissnum_bits. Qed.
 Print Assumptions C06_swissnum_bits.
+
+(* "it can cause instances to be created only of classes explicitly registered for pass-by-copy" *)
+Theorem C06_classes : forall w st c req clid m args st' r cls,
+  step w st (Msg c req clid m args) = (st', r) -> In cls (r_inst r) ->
+  exists n, In (ACopyable n) args /\ sget n (s_copy st) = Some cls.
+Proof. exact classes_sound. Qed.
+Print Assumptions C06_classes.
+
+(* ... where the registry holds what importing foolscap registered (translated key set) and what registerRemoteCopy added *)
+Theorem C06_registry_origin : forall w h n cls,
+  sget n (s_copy (fst (run w init h))) = Some cls -> In n copyable_names \/ In (RegisterCopy n cls) h.
+Proof.
+  intros w h n cls H. destruct (copy_origin w h init n cls H) as [H'|H']; [left; eapply init_copy_names; eauto | right; exact H'].
+Qed.
+Print Assumptions C06_registry_origin.
+
+(* the set of OPEN types is closed: everything accepted below the top level is plain data or one of the four reference
+   forms, nothing that names code; the top level accepts call / answer / error only *)
+Theorem C06_open_types_closed :
+  forallb (fun k => mem_type k data_types) open_types = true /\
+  forallb (fun t => negb (mem_type [t] open_types))
+          ["instance"; "class"; "module"; "function"; "method"; "call"; "answer"; "error"; "copyable"]%string = true /\
+  top_types = [["answer"]; ["call"]; ["error"]]%string.
+Proof. split; [exact open_types_closed | split; [exact no_code_types | exact top_types_pinned]]. Qed.
+Print Assumptions C06_open_types_closed.
+
+(* "every other object id, name, method name or class name fails that request": a call that entered anything used only
+   registered OPEN types, registered copyable names and your-references its own connection resolves *)
+Theorem C06_bad_argument_never_enters : forall w st c req clid m args st' r e,
+  step w st (Msg c req clid m args) = (st', r) -> r_out r = Enter e -> clid <> 0 ->
+  (forall t, In (AOpen t) args -> mem_type [t] open_types = true) /\
+  (forall n, In (ACopyable n) args -> exists cls, sget n (s_copy st) = Some cls) /\
+  (forall k, In (AYourRef k) args -> k = 0 \/ exists o, exported st c k o).
+Proof. exact bad_argument_never_enters. Qed.
+Print Assumptions C06_bad_argument_never_enters.
+
+(* "... without side effects": a refused request changes nothing; a dropped connection (the refusal for an unknown
+   your-reference or an undecodable method name) loses its own table and nothing else; a call entering an application
+   object changes no table; other top-level sequences change nothing *)
+Theorem C06_refusal_pure : forall w st c req clid m args st' r,
+  step w st (Msg c req clid m args) = (st', r) -> r_out r = Reject \/ r_out r = Dead -> st' = st /\ r_sent r = [].
+Proof. exact refusal_pure. Qed.
+Print Assumptions C06_refusal_pure.
+
+Theorem C06_dropped_local : forall w st c req clid m args st' r,
+  step w st (Msg c req clid m args) = (st', r) -> r_out r = Aborted ->
+  st' = set_conn st c (drop_conn (get_conn st c)) /\ r_sent r = [].
+Proof. exact aborted_local. Qed.
+Print Assumptions C06_dropped_local.
+
+Theorem C06_plain_call_pure : forall w st c req clid m args st' r,
+  step w st (Msg c req clid m args) = (st', r) ->
+  (exists o a, r_out r = Enter (EObj o a)) \/ (exists o, r_out r = Enter (ECallable o)) -> st' = st /\ r_sent r = [].
+Proof. exact plain_call_pure. Qed.
+Print Assumptions C06_plain_call_pure.
+
+Theorem C06_top_level_pure : forall w st c t st' r,
+  step w st (TopMsg c t) = (st', r) -> st' = st /\ r_inst r = [] /\ r_sent r = [] /\ (r_out r = Reject \/ r_out r = Dead).
+Proof. exact top_level_pure. Qed.
+Print Assumptions C06_top_level_pure.
+
+(* "ids learned on one connection are meaningless on another": an id this connection's table does not hold is refused
+   without effect, whatever the other connection's table holds under it *)
+Theorem C06_foreign_clid_refused : forall w st c req clid m args,
+  clid <> 0 -> c_alive (get_conn st c) = true -> zget clid (c_exports (get_conn st c)) = None ->
+  step w st (Msg c req clid m args) = (st, res0 Reject).
+Proof. exact foreign_clid_refused. Qed.
+Print Assumptions C06_foreign_clid_refused.
+
+(* the other connection's table is neither read nor written by anything that does not happen on it *)
+Theorem C06_other_table_is_a_frame : forall w st e c' x,
+  on_conn e <> Some c' ->
+  step w (set_conn st c' x) e = (set_conn (fst (step w st e)) c' x, snd (step w st e)).
+Proof. exact step_frame. Qed.
+Print Assumptions C06_other_table_is_a_frame.
+
+(* non-interference over all interleaved histories: two histories that agree on connection c's own events (and on
+   copyable registrations) but differ arbitrarily in what happens on the other connection -- grants, releases, inbound
+   messages, drops -- and in the Tub's name table, give c the same export table and the same outcome for every one of
+   c's messages.  Name lookups are excluded: the name table is Tub-wide by design (C06_names covers them). *)
+Theorem C06_conn_local : forall w c h1 h2 s1 s2,
+  same_view c s1 s2 -> no_lookup_on c h1 -> no_lookup_on c h2 -> proj c h1 = proj c h2 ->
+  same_view c (fst (run w s1 h1)) (fst (run w s2 h2)) /\
+  results_on c h1 (snd (run w s1 h1)) = results_on c h2 (snd (run w s2 h2)).
+Proof. exact id_locality. Qed.
+Print Assumptions C06_conn_local.
